@@ -16,8 +16,10 @@ CONSTANTS N, Names, MaxPacks, MaxLen
 VARIABLES loose,      \* set of commits stored loose
           packs,      \* sequence of sets of commits (visible packs)
           refs,       \* Names -> 0..N  (0 = absent)
+          oldL,       \* loose commits whose files are older than the grace period
+          oldP,       \* sequence of BOOLEAN parallel to packs: the pack file is older than the grace period
           hist        \* the behaviour so far (replayed by the harness)
-vars == <<loose, packs, refs, hist>>
+vars == <<loose, packs, refs, oldL, oldP, hist>>
 
 Commits == 1..N
 Present == loose \cup UNION {packs[i] : i \in 1..Len(packs)}
@@ -25,49 +27,85 @@ Anc(c) == 1..c
 Reachable == UNION {Anc(refs[n]) : n \in {m \in Names : refs[m] # 0}}
 Log(a) == hist' = Append(hist, a)
 
-Init == loose = {} /\ packs = <<>> /\ refs = [n \in Names |-> 0] /\ hist = <<>>
+Init == loose = {} /\ packs = <<>> /\ refs = [n \in Names |-> 0] /\ oldL = {} /\ oldP = <<>> /\ hist = <<>>
+
+\* "older than the grace period" in the sense of the statement: no copy of the commit was written recently
+AllOld(c) == /\ (c \in loose => c \in oldL)
+             /\ \A i \in 1..Len(packs) : c \in packs[i] => oldP[i]
+\* what a pruning gc with the default grace period may remove
+Prunable == {c \in Present \ Reachable : AllOld(c)}
 
 \* create commit c (needs its parent) as loose objects; optionally point a ref at it
 AddLoose(c) ==
     /\ c \notin Present /\ (c = 1 \/ c - 1 \in Present)
-    /\ loose' = loose \cup {c} /\ UNCHANGED <<packs, refs>>
+    /\ loose' = loose \cup {c} /\ UNCHANGED <<packs, refs, oldL, oldP>>
     /\ Log([a |-> "add_loose", c |-> c, n |-> "", s |-> {}])
+\* add_object of content that is already stored loose freshens the file's mtime
+ReAdd(c) ==
+    /\ c \in loose /\ c \in oldL
+    /\ oldL' = oldL \ {c} /\ UNCHANGED <<loose, packs, refs, oldP>>
+    /\ Log([a |-> "re_add", c |-> c, n |-> "", s |-> {}])
+\* two weeks and a day pass: every file present now is older than every grace period
+Age ==
+    /\ Present # {} /\ (oldL # loose \/ \E i \in 1..Len(packs) : ~oldP[i])
+    /\ oldL' = loose /\ oldP' = [i \in 1..Len(packs) |-> TRUE] /\ UNCHANGED <<loose, packs, refs>>
+    /\ Log([a |-> "age", c |-> 0, n |-> "", s |-> {}])
 \* write commits as a new pack (objects already present elsewhere are duplicated)
 AddPack(S) ==
     /\ S # {} /\ Len(packs) < MaxPacks
     /\ \A c \in S : c = 1 \/ c - 1 \in Present \cup S
-    /\ packs' = Append(packs, S) /\ UNCHANGED <<loose, refs>>
+    /\ packs' = Append(packs, S) /\ oldP' = Append(oldP, FALSE) /\ UNCHANGED <<loose, refs, oldL>>
     /\ Log([a |-> "add_pack", c |-> 0, n |-> "", s |-> S])
+\* a ref is only ever pointed at a commit whose history is complete (gc with a grace period may
+\* legitimately have removed an old unreachable ancestor of a recent unreachable commit: the statement
+\* allows it; C git keeps such ancestors since 2.2, dulwich does not -- an observation, not a C10 violation)
 SetRef(n, c) ==
-    /\ c \in Present /\ refs[n] # c
-    /\ refs' = [refs EXCEPT ![n] = c] /\ UNCHANGED <<loose, packs>>
+    /\ Anc(c) \subseteq Present /\ refs[n] # c
+    /\ refs' = [refs EXCEPT ![n] = c] /\ UNCHANGED <<loose, packs, oldL, oldP>>
     /\ Log([a |-> "set_ref", c |-> c, n |-> n, s |-> {}])
 DelRef(n) ==
     /\ refs[n] # 0
-    /\ refs' = [refs EXCEPT ![n] = 0] /\ UNCHANGED <<loose, packs>>
+    /\ refs' = [refs EXCEPT ![n] = 0] /\ UNCHANGED <<loose, packs, oldL, oldP>>
     /\ Log([a |-> "del_ref", c |-> 0, n |-> n, s |-> {}])
 PackLoose ==
     /\ loose # {}
-    /\ packs' = Append(packs, loose) /\ loose' = {} /\ UNCHANGED refs
+    /\ packs' = Append(packs, loose) /\ oldP' = Append(oldP, FALSE) /\ loose' = {} /\ oldL' = {} /\ UNCHANGED refs
     /\ Log([a |-> "pack_loose", c |-> 0, n |-> "", s |-> {}])
+\* C git's `maintenance run --task=loose-objects`: loose objects that are packed already are removed,
+\* the remaining ones are copied into a pack named loose-<hash> (and stay loose until the next run)
+GitMaintLoose ==
+    /\ loose # {} /\ Len(packs) < MaxPacks
+    /\ LET packed == UNION {packs[i] : i \in 1..Len(packs)}
+           rest == loose \ packed IN
+         /\ loose' = rest /\ oldL' = oldL \cap rest
+         /\ packs' = (IF rest = {} THEN packs ELSE Append(packs, rest))
+         /\ oldP' = (IF rest = {} THEN oldP ELSE Append(oldP, FALSE))
+    /\ UNCHANGED refs
+    /\ Log([a |-> "git_maint_loose", c |-> 0, n |-> "", s |-> {}])
 Repack ==
     /\ Present # {}
-    /\ packs' = <<Present>> /\ loose' = {} /\ UNCHANGED refs
+    /\ packs' = <<Present>> /\ oldP' = <<FALSE>> /\ loose' = {} /\ oldL' = {} /\ UNCHANGED refs
     /\ Log([a |-> "repack", c |-> 0, n |-> "", s |-> {}])
 \* gc with grace period 0: everything unreachable goes, everything reachable ends up in one pack
 GcPrune ==
     /\ Present # {}
     /\ packs' = (IF Reachable = {} THEN <<>> ELSE <<Reachable>>)
-    /\ loose' = {} /\ UNCHANGED refs
+    /\ oldP' = (IF Reachable = {} THEN <<>> ELSE <<FALSE>>)
+    /\ loose' = {} /\ oldL' = {} /\ UNCHANGED refs
     /\ Log([a |-> "gc0", c |-> 0, n |-> "", s |-> {}])
-\* gc with the default grace period: nothing recent is pruned (everything here is recent), all is repacked
+\* gc with the default grace period: unreachable commits none of whose copies is recent go, the rest is repacked
 GcKeep ==
     /\ Present # {}
-    /\ packs' = <<Present>> /\ loose' = {} /\ UNCHANGED refs
+    /\ LET keep == Present \ Prunable IN
+         /\ packs' = (IF keep = {} THEN <<>> ELSE <<keep>>)
+         /\ oldP' = (IF keep = {} THEN <<>> ELSE <<FALSE>>)
+    /\ loose' = {} /\ oldL' = {} /\ UNCHANGED refs
     /\ Log([a |-> "gc_default", c |-> 0, n |-> "", s |-> {}])
-PackRefs == /\ UNCHANGED <<loose, packs, refs>> /\ Log([a |-> "pack_refs", c |-> 0, n |-> "", s |-> {}])
-Midx     == /\ Len(packs) > 0 /\ UNCHANGED <<loose, packs, refs>> /\ Log([a |-> "write_midx", c |-> 0, n |-> "", s |-> {}])
-CGraph   == /\ Reachable # {} /\ UNCHANGED <<loose, packs, refs>> /\ Log([a |-> "write_commit_graph", c |-> 0, n |-> "", s |-> {}])
+\* DiskObjectStore.prune(): removes stale temporary files only; never an object
+Prune    == /\ Present # {} /\ UNCHANGED <<loose, packs, refs, oldL, oldP>> /\ Log([a |-> "prune", c |-> 0, n |-> "", s |-> {}])
+PackRefs == /\ UNCHANGED <<loose, packs, refs, oldL, oldP>> /\ Log([a |-> "pack_refs", c |-> 0, n |-> "", s |-> {}])
+Midx     == /\ Len(packs) > 0 /\ UNCHANGED <<loose, packs, refs, oldL, oldP>> /\ Log([a |-> "write_midx", c |-> 0, n |-> "", s |-> {}])
+CGraph   == /\ Reachable # {} /\ UNCHANGED <<loose, packs, refs, oldL, oldP>> /\ Log([a |-> "write_commit_graph", c |-> 0, n |-> "", s |-> {}])
 
 Next ==
     /\ Len(hist) < MaxLen
@@ -75,12 +113,46 @@ Next ==
        \/ \E S \in SUBSET Commits : AddPack(S)
        \/ \E n \in Names, c \in Commits : SetRef(n, c)
        \/ \E n \in Names : DelRef(n)
+       \/ \E c \in Commits : ReAdd(c)
+       \/ Age \/ Prune \/ GitMaintLoose
        \/ PackLoose \/ Repack \/ GcPrune \/ GcKeep \/ PackRefs \/ Midx \/ CGraph
 
 Spec == Init /\ [][Next]_vars
 
+(***************************************************************************)
+(* Directed exploration: every sequence of maintenance steps (no builders) *)
+(* after four fixed build prefixes  -- an unreachable loose commit above a *)
+(* reachable one; a pack plus a loose commit; a commit stored twice.  The  *)
+(* harness replays ALL of these behaviours, not a sample.                  *)
+(***************************************************************************)
+E(a, c, n, s) == [a |-> a, c |-> c, n |-> n, s |-> s]
+InitD ==
+    /\ oldL = {} /\ refs \in {[n \in Names |-> IF n = "refs/heads/a" THEN 1 ELSE 0]}
+    /\ \/ /\ loose = {1, 2} /\ packs = <<>> /\ oldP = <<>>
+          /\ hist = <<E("add_loose", 1, "", {}), E("add_loose", 2, "", {}), E("set_ref", 1, "refs/heads/a", {})>>
+       \/ /\ loose = {3} /\ packs = <<{1, 2}>> /\ oldP = <<FALSE>>
+          /\ hist = <<E("add_pack", 0, "", {1, 2}), E("add_loose", 3, "", {}), E("set_ref", 1, "refs/heads/a", {})>>
+       \/ /\ loose = {1} /\ packs = <<{1, 2}>> /\ oldP = <<FALSE>>
+          /\ hist = <<E("add_loose", 1, "", {}), E("add_pack", 0, "", {1, 2}), E("set_ref", 1, "refs/heads/a", {})>>
+    \* fourth prefix: everything lives in a pack written by C git's maintenance (named loose-<hash>), both
+    \* commits reachable; its five steps do not count against the length bound
+InitD4 ==
+    /\ oldL = {} /\ refs = [n \in Names |-> IF n = "refs/heads/a" THEN 2 ELSE 0]
+    /\ loose = {} /\ packs = <<{1, 2}>> /\ oldP = <<FALSE>>
+    /\ hist = <<E("add_loose", 1, "", {}), E("add_loose", 2, "", {}), E("set_ref", 2, "refs/heads/a", {}),
+                E("git_maint_loose", 0, "", {}), E("git_maint_loose", 0, "", {})>>
+DirectedPrefix == IF hist[3].c = 2 THEN 5 ELSE 3
+NextMaint ==
+    /\ Len(hist) < MaxLen + (DirectedPrefix - 3)
+    /\ \/ \E c \in Commits : ReAdd(c)
+       \/ Age \/ Prune \/ GitMaintLoose \/ PackLoose \/ Repack \/ GcPrune \/ GcKeep \/ Midx
+SpecD == (InitD \/ InitD4) /\ [][NextMaint]_vars
+
 \* maintenance never loses a reachable object
 ReachablePreserved == Reachable \subseteq Present
-\* only gc removes anything at all (action property)
-OnlyGcRemoves == [][Present \subseteq Present' \/ hist'[Len(hist')].a \in {"gc0"}]_vars
+\* only a pruning gc removes anything at all, and the one with a grace period only what is unreachable
+\* and has no recent copy (action properties)
+OnlyGcRemoves == [][Present \subseteq Present' \/ hist'[Len(hist')].a \in {"gc0", "gc_default"}]_vars
+GraceRespected == [][hist'[Len(hist')].a = "gc_default" => (Present \ Present') \subseteq Prunable]_vars
+TypeOK == oldL \subseteq loose /\ Len(oldP) = Len(packs)
 =============================================================================
